@@ -30,11 +30,13 @@ POSTCONDITION TraceAccepted
 
 
 def run_sim(ctx, name, stakes, byz=(), byz_mode="silent", crashed=(), crash_at=0, seed=1, gst=0,
-            chaos=1500, drop=0, dup=0, delta=80, run_ms=9000):
+            chaos=1500, drop=0, dup=0, delta=80, run_ms=9000, stake_scale=0):
     out = os.path.join(ctx.work, f"{name}.ndjson")
     args = ["sim", "--stakes", ",".join(map(str, stakes)), "--seed", seed, "--run", run_ms,
             "--gst", gst, "--chaos", chaos, "--drop", drop, "--dup", dup, "--delta", delta,
             "--crash-at", crash_at, "--out", out, "--byz-mode", byz_mode]
+    if stake_scale:
+        args += ["--stake-scale", stake_scale]
     if byz:
         args += ["--byz", ",".join(map(str, byz))]
     if crashed:
